@@ -5,11 +5,11 @@ use proptest::prelude::*;
 use serde::{Deserialize, Serialize};
 
 #[derive(Clone, Copy)]
-pub struct Rng(pub u64);
+pub struct Prng(pub u64);
 
-impl Rng {
+impl Prng {
     pub fn new(seed: u64) -> Self {
-        Rng(seed ^ 0x9E37_79B9_7F4A_7C15)
+        Prng(seed ^ 0x9E37_79B9_7F4A_7C15)
     }
     #[inline]
     pub fn next(&mut self) -> u64 {
@@ -122,7 +122,7 @@ impl Data {
                 Seg::Rand { len, seed } => {
                     let start = out.len();
                     out.resize(start + len as usize, 0);
-                    Rng::new(seed).fill(&mut out[start..]);
+                    Prng::new(seed).fill(&mut out[start..]);
                 }
                 Seg::Const { len, byte } => {
                     let n = out.len() + len as usize;
@@ -131,7 +131,7 @@ impl Data {
                 Seg::Periodic { len, period, seed } => {
                     let p = (period as usize).max(1);
                     let mut block = vec![0u8; p];
-                    Rng::new(seed).fill(&mut block);
+                    Prng::new(seed).fill(&mut block);
                     for i in 0..len as usize {
                         out.push(block[i % p]);
                     }
@@ -149,7 +149,7 @@ impl Data {
                     }
                 }
                 Seg::Text { len, seed } => {
-                    let mut r = Rng::new(seed);
+                    let mut r = Prng::new(seed);
                     const WORDS: [&[u8]; 16] = [
                         b"the ", b"of ", b"and ", b"compress", b"ion ", b"data ", b"lzma ",
                         b"stream ", b"block ", b"\n", b"a ", b"in ", b"is ", b"0123", b"xz ",
@@ -170,7 +170,7 @@ impl Data {
                     if f.is_empty() {
                         let start = out.len();
                         out.resize(start + len as usize, 0);
-                        Rng::new(off as u64).fill(&mut out[start..]);
+                        Prng::new(off as u64).fill(&mut out[start..]);
                     } else {
                         let o = off as usize % f.len();
                         for i in 0..len as usize {
@@ -179,7 +179,7 @@ impl Data {
                     }
                 }
                 Seg::Mixed { len, seed } => {
-                    let mut r = Rng::new(seed);
+                    let mut r = Prng::new(seed);
                     let target = out.len() + len as usize;
                     while out.len() < target {
                         let room = target - out.len();
@@ -206,11 +206,11 @@ impl Data {
 
 /// Synthetic code: random bytes in which branch instructions of the architecture are frequent.
 pub fn gen_opcodes(out: &mut Vec<u8>, len: usize, arch: u8, seed: u64) {
-    let mut r = Rng::new(seed);
+    let mut r = Prng::new(seed);
     let target = out.len() + len;
     while out.len() < target {
         let mut ins: Vec<u8> = Vec::with_capacity(16);
-        let hi = |r: &mut Rng| -> u8 {
+        let hi = |r: &mut Prng| -> u8 {
             match r.below(4) {
                 0 => 0x00,
                 1 => 0xFF,
